@@ -24,19 +24,20 @@ func vRepeat(u string, k int) string {
 	return s
 }
 
-var vSqlUnits = [...]string{"''", "\\'", "$t$", "/*", "@", "`", "[", "a.", "a`", "--", "1,", "(", "1e", "x'", "q'(", "$$", "#", "\"\"", "a ", "1 ", ";", "{a ", "n'", "/*!", "1+", "or 1 ", "@@", "\\N", "u&'", "0x", "`a` ", "]'", "*/", "-", "<=>"}
-var vXssUnits = [...]string{"<", "-", "%", "]", "&#", "/", "a=", "<!--x-->", "<%x%>", "</x>", "<x>", "<a b=c ", "' ", "\" ", "` ", "<!--", "<![CDATA[", "<?x>", "<!x>", "x=`", "--!", "]]", "%>", "<a href=&#x6a;", "<a/", "/ ", "<a b='c'", "\x00", "=\x00", "<!--[if", "<a style=", "&#x41", "<a href=java"}
+var vSqlUnits = [...]string{"''", "\\'", "$t$", "/*", "@", "`", "[", "a.", "a`", "--", "1,", "(", "1e", "x'", "q'(", "$$", "#", "\"\"", "a ", "1 ", ";", "{a ", "n'", "/*!", "1+", "or 1 ", "@@", "\\N", "u&'", "0x", "`a` ", "]'", "*/", "-", "<=>", "[aaaaaaaaaaaaaaaaaaaaaaaaaaaaaa,", "(aaaaaaaaaaaaaaaaaaaaaaaaaaaaaaaa,", "aaaaaaaaaaaaaaaaaaaaaaaaaaaaaaaa.", "'aaaaaaaaaaaaaaaaaaaaaaaaaaaaaaaa',"}
+var vXssUnits = [...]string{"<", "-", "%", "]", "&#", "/", "a=", "<!--x-->", "<%x%>", "</x>", "<x>", "<a b=c ", "' ", "\" ", "` ", "<!--", "<![CDATA[", "<?x>", "<!x>", "x=`", "--!", "]]", "%>", "<a href=&#x6a;", "<a/", "/ ", "<a b='c'", "\x00", "=\x00", "<!--[if", "<a style=", "&#x41", "<a href=java", "x", "&#120;", "x\x00", "<a href=\"xxxxxxxxxxxxxxxxxxxxxxxxxxxxxxxx\">"}
 
-const vNumSqlUnits = 35
-const vNumXssUnits = 33
+const vNumSqlUnits = 39
+const vNumXssUnits = 37
 
 // HRepeatSqli: pre + (unit with `holes` free bytes appended)^k and ^2k. Cost linear: doubling the length at most doubles
 // the cost (plus a constant), and the cost per byte stays under a generous constant.
 func HRepeatSqli(unit int, holes int, k int, pre int, perByte int, slack int) {
 	u := vSqlUnits[unit] + vNondetString(holes)
-	p := [...]string{"", "'", "1 ", "\""}[pre]
-	s1 := p + vRepeat(u, k)
-	s2 := p + vRepeat(u, 2*k)
+	p := [...]string{"", "'", "1 ", "\"", "", "", ""}[pre]
+	q := [...]string{"", "", "", "", "]", "'", "*/"}[pre]
+	s1 := p + vRepeat(u, k) + q
+	s2 := p + vRepeat(u, 2*k) + q
 	c0 := vCost()
 	IsSQLi(s1)
 	c1 := vCost() - c0
@@ -53,7 +54,7 @@ func HRepeatSqli(unit int, holes int, k int, pre int, perByte int, slack int) {
 
 func HRepeatXss(unit int, holes int, k int, pre int, perByte int, slack int) {
 	u := vXssUnits[unit] + vNondetString(holes)
-	p := [...]string{"", "<a ", "x' ", "<!--"}[pre]
+	p := [...]string{"", "<a ", "x' ", "<!--", "<a href=\"", "<a href=", "<a src='"}[pre]
 	s1 := p + vRepeat(u, k)
 	s2 := p + vRepeat(u, 2*k)
 	c0 := vCost()
